@@ -148,6 +148,20 @@ theorem transfer_idempotent (src : Db) (roots : List H) (dst : Sess) (hp : dst.p
     transfer src roots (transfer src roots dst) = transfer src roots dst :=
   put_idempotent _ dst hp
 
+/-- a record listed twice in ONE batch (concatenated exports of overlapping root selections) is written once:
+`put_has_all` and `put_idempotent` above hold for arbitrary lists, duplicates included; this is the step that
+makes them so -/
+theorem put_duplicate_skipped (r : Rec) (rs : List Rec) (s : Sess) :
+    putRecords (r :: r :: rs) s = putRecords (r :: rs) s := by
+  have h : ∀ db, newRecords db [] (r :: r :: rs) = newRecords db [] (r :: rs) := by
+    intro db
+    simp only [newRecords]
+    by_cases hc : isRecordId db r.id = true
+    · simp [hc]
+    · simp [hc]
+  unfold putRecords
+  rw [h]
+
 /-! ### tag status -/
 
 /-- after `_postprocess_new_records` no superseded tag is current -/
